@@ -208,6 +208,8 @@ func runClient(t *testing.T, sc *cScript) (obs *cObs) {
 			body = http.NoBody
 		case sc.Body == "bytes":
 			body = bytes.NewReader([]byte(cBodyText))
+		case sc.Body == "closeonce":
+			body = &closeOnceBody{r: strings.NewReader(cBodyText)}
 		case sc.Body == "noget" || strings.HasPrefix(sc.Body, "getfail:"):
 			body = noGetReader{strings.NewReader(cBodyText)}
 		}
@@ -224,6 +226,12 @@ func runClient(t *testing.T, sc *cScript) (obs *cObs) {
 					return nil, errGetBody
 				}
 				return io.NopCloser(strings.NewReader(cBodyText)), nil
+			}
+		} else if sc.Body == "closeonce" {
+			// a body whose second Close fails (like *os.File), re-opened by GetBody
+			req.GetBody = func() (io.ReadCloser, error) {
+				obs.GetBodyCalls++
+				return &closeOnceBody{r: strings.NewReader(cBodyText)}, nil
 			}
 		} else if req.GetBody != nil {
 			orig := req.GetBody
@@ -521,7 +529,7 @@ func judgeClient(sc *cScript, obs *cObs, prop string) (out []jv) {
 	retry := 0
 	var lastErrKind string
 	var lastAttempt int
-	bodyHas := sc.Body == "bytes" || sc.Body == "noget" || strings.HasPrefix(sc.Body, "getfail:")
+	bodyHas := sc.Body == "bytes" || sc.Body == "closeonce" || sc.Body == "noget" || strings.HasPrefix(sc.Body, "getfail:")
 	failJ := 0
 	if strings.HasPrefix(sc.Body, "getfail:") {
 		fmt.Sscanf(sc.Body, "getfail:%d", &failJ)
